@@ -483,7 +483,7 @@ func exec(line string, st *hx.Stats) string {
 				if a != b || p != b {
 					st.Inc("mismatch:" + s.kind)
 					// is any side unstable by itself?
-					for rep := 0; rep < 3 && mark == ""; rep++ {
+					for rep := 0; rep < 6 && mark == ""; rep++ {
 						if ask(rg.cached, splitStore, splitModel, s, ctxOf[s.sel]) != a || ask(rg.plain, splitStore, splitModel, s, ctxOf[s.sel]) != p ||
 							ask(rg.plain, refStore[s.sel][0], refStore[s.sel][1], s, nil) != b {
 							mark = "~"
